@@ -113,7 +113,7 @@ def c07(lines, out):
         elif not had_ctx and r.prev_dump and r.depth == 0:
             if t[0] in CTX_OPS and t[0] != 'ctx_reg' and not neg(r.result):
                 v.append(('no_ctx', '%s without a context returned %s' % (r.op, r.result)))
-            if t[0] not in CTX_OPS and t[0] != 'unref' and isint(r.result) and not neg(r.result):   # (dropping a reference is not a context call)
+            if t[0] not in CTX_OPS and t[0] not in ('unref', 'burst') and isint(r.result) and not neg(r.result):   # (dropping a reference is not a context call; a burst reports how many tells were accepted)
                 v.append(('no_ctx', '%s without a context returned %s' % (r.op, r.result)))
             if r.dump and r.dump != r.prev_dump:
                 v.append(('no_ctx', '%s without a context had an effect' % r.op))
